@@ -273,6 +273,12 @@ void mcs_flockfile(FILE* f) { if (!g_on) { flockfile(f); return; } lock_acquire(
 void mcs_funlockfile(FILE* f) { if (!g_on) { funlockfile(f); return; } lock_release(f); }
 /* A ZSTD_DCtx must not be used by two threads at once.  The serialised scheduler executes each libzstd call as one step,
  * so overlapping use is detected with a begin / end pair around the real call. */
+/* zlib inflate: a step on the caller's z_stream (its own accesses to the stream state are not instrumented: report them as one write of the struct) */
+struct z_stream_s; int inflate(struct z_stream_s*, int); int inflateReset(struct z_stream_s*); int inflateEnd(struct z_stream_s*); int inflateInit2_(struct z_stream_s*, int, const char*, int);
+int mcs_inflate(struct z_stream_s* z, int f) { if (g_on) { sp(SCH_K_ZSTD); access_hook(z, 112, 1, PC()); } return inflate(z, f); }
+int mcs_inflateReset(struct z_stream_s* z) { if (g_on) { sp(SCH_K_ZSTD); access_hook(z, 112, 1, PC()); } return inflateReset(z); }
+int mcs_inflateEnd(struct z_stream_s* z) { if (g_on) { sp(SCH_K_ZSTD); access_hook(z, 112, 1, PC()); } return inflateEnd(z); }
+int mcs_inflateInit2_(struct z_stream_s* z, int wb, const char* ver, int sz) { if (g_on) { sp(SCH_K_ZSTD); access_hook(z, 112, 1, PC()); } return inflateInit2_(z, wb, ver, sz); }
 typedef struct ZSTD_DCtx_s ZSTD_DCtx; size_t ZSTD_decompressDCtx(ZSTD_DCtx*, void*, size_t, const void*, size_t);
 static void* g_busy_ctx[SCH_MAXT];
 size_t mcs_ZSTD_decompressDCtx(ZSTD_DCtx* c, void* dst, size_t cap, const void* src, size_t n) {
